@@ -55,7 +55,7 @@ PROPS = {
         comps={"outcome", "bank", "pools"}, triggers=_CS_TRIGGERS, assumptions=_CS_ASSUME),
     "C08": dict(
         suite="coinswap", modules=["CantoVerif.Props.C08"] + _CS_BRIDGE_MODULES,
-        theorems=["CV.Coinswap.deadline_respected", "CV.Coinswap.deadline_monitor", "CV.Coinswap.swap_delivered", "CV.Coinswap.swap_delivered_monitor", "CV.Coinswap.swap_full", "CV.Coinswap.swap_bounds_rounding_monitor", "CV.Coinswap.swapEffs_exact", "CV.Coinswap.notPast_of_not_pastDeadline", "CV.Coinswap.sell_exact_in_min_out",
+        theorems=["CV.Coinswap.deadline_respected", "CV.Coinswap.deadline_monitor", "CV.Coinswap.swap_delivered", "CV.Coinswap.swap_delivered_monitor", "CV.Coinswap.swap_full", "CV.Coinswap.swap_bounds_rounding_monitor", "CV.Coinswap.remove_bounds_monitor", "CV.Coinswap.removeEffs_exact", "CV.Coinswap.swapEffs_exact", "CV.Coinswap.notPast_of_not_pastDeadline", "CV.Coinswap.sell_exact_in_min_out",
                   "CV.Coinswap.buy_exact_out_max_in", "CV.Coinswap.add_bounds", "CV.Coinswap.remove_bounds",
                   "CV.Coinswap.sell_bound_tight", "CV.Coinswap.inputPrice_ok", "CV.Coinswap.outputPrice_ok",
                   "CV.Coinswap.addLiveAmounts_ok", "CV.Coinswap.removeAmounts_ok"] + _CS_BRIDGE,
